@@ -63,7 +63,10 @@ def build():
                          'conf.py derives LOW/HARD from MAX_CACHE_SIZE exactly as the harness assumes'),
                Syntactic('C10/events/wiring', events_wiring,
                          'events.py default handlers are the effects the harness gives the events')],
-    bounded=[Bounded('C10/native/cache_contracts_cross_check', 'replay/cache_native.py',
+    bounded=[Bounded('C10/native/two_thread_schedules', 'replay/cache_sched_native.py', ['--depth', '2', '--only', 'sched-bound,sched-size_exact'], ['--depth', '3', '--only', 'sched-bound,sched-size_exact'],
+                     'the real _MetricCache under deterministic two-thread schedules (sys.settrace): every history of <= 2 (quick) / 3 (thorough) store / drain_metric calls over 2 metrics x 2 timestamps, with the other thread (writer: 1, 2 or all drains; receiver: one of 4 stores) run at every line step of the traced call at which the cache lock is not held; MAX_CACHE_SIZE in {1,2,3,inf} plus pre-filled caches of 20 with flow control (where cacheFull can fire), all seven strategies',
+                     'schedules at line granularity of cache.py give the concrete interleaving that the lock-invariant / rely-guarantee obligations only refute abstractly (byte-code level races inside one line stay out of reach)'),
+             Bounded('C10/native/cache_contracts_cross_check', 'replay/cache_native.py',
                      ['--sweep', '3', 'bound,refuse_signal,refuse_only_without_room,refuse_frame,refuse_frame_others,update_when_full'],
                      ['--sweep', '4', 'bound,refuse_signal,refuse_only_without_room,refuse_frame,refuse_frame_others,update_when_full'],
                      'every sequential store/drain history of length <= 3 (quick) / 4 (thorough) over 2 metrics x 2 timestamps, MAX_CACHE_SIZE in {1,2,3,inf}, flow control on/off, all seven strategy settings',
